@@ -83,6 +83,7 @@ def plan(tier, seed):
     for how in HOWS:
         jobs.append({'space': 'pick', 'how': how, 'tier': tier, 'weight': 60})
     jobs.append({'space': 'scope', 'tier': tier, 'weight': 5})
+    jobs.append({'space': 'restate', 'tier': tier, 'weight': 20})
     for lo, hi in core.chunks(512, 16):
         jobs.append({'space': 'transitions', 'lo': lo, 'hi': hi,
                      'tier': tier, 'weight': (hi - lo) * 8})
@@ -192,6 +193,8 @@ def run(job, seed):
         return run_pick(acc, P, job)
     if job['space'] == 'scope':
         return run_scope(acc, P)
+    if job['space'] == 'restate':
+        return run_restate(acc, P)
     if job['space'] == 'spelling':
         return run_spelling(acc, P)
     if job['space'] == 'filenames':
@@ -544,6 +547,40 @@ def run_spelling(acc, P):
                         res['json'], res[fmt], 'spelling')
             acc.outcome('spelling-%s' % (res['json'][0],))
     acc.sample('spelling', {'values': [repr(v) for v in SPELL_VALUES]})
+    return acc.result()
+
+
+def run_restate(acc, P):
+    """A LATER layer restates, word for word (or in an equivalent spelling),
+    what the registered default says, while an earlier file layer says
+    something else: the later layer is still the one in effect."""
+    file_layers = [i for i in ORDER if i]
+    for e, l in itertools.combinations(file_layers, 2):
+        for spelled, late in itertools.product(
+                ('role:L0', '(role:L0)', 'role:L0 '), (False, True)):
+            defs = {0: {NAMES[0]: 'role:L0'}, e: {NAMES[0]: 'role:L%d' % e},
+                    l: {NAMES[0]: spelled}}
+            w = world.FileWorld()
+            try:
+                layout(w, defs, set(), 'absent')
+                enf = enforcer(P, w, defs, False, late)
+                acc.ev(len(LAYERS))
+                got = probe(enf, NAMES[0])
+                acc.case('restate', True)
+                if got != 0:
+                    acc.violation(
+                        'restate|%s-after-%s|got=%s' % (
+                            LAYERS[l][2], LAYERS[e][2], _lname(got)),
+                        '%s says %r, the later %s restates the default %r: '
+                        'the definition in effect is that of %s' %
+                        (LAYERS[e][2], 'role:L%d' % e, LAYERS[l][2], spelled,
+                         _lname(got)),
+                        {'earlier': e, 'later': l, 'spelled': spelled,
+                         'late_registration': late}, 0, got, 'restate')
+                acc.outcome('restate')
+            finally:
+                w.destroy()
+    acc.sample('restate', {'layers': file_layers})
     return acc.result()
 
 
